@@ -510,7 +510,7 @@ pub fn run(ctx: &mut Ctx) {
     }
     // Part B: whole images
     witness_cases(ctx, 90000);
-    let nimg = ctx.n(420, 6000);
+    let nimg = ctx.n(308, 6000);
     for k in 0..nimg {
         let idx = 100000 + k;
         let mut r = rng.fork(idx as u64);
@@ -518,6 +518,15 @@ pub fn run(ctx: &mut Ctx) {
         // every format in turn; the slow bit-level formats less often in the quick tier
         let which = if ctx.tier_thorough { k % 14 } else { [0, 1, 2, 4, 5, 6, 7, 12, 13, 0, 1, 5, 3, 8, 9, 10, 11, 2, 4, 5, 12, 13][k % 22] };
         image_case(ctx, idx, which, &mut r);
+    }
+    // Part C: loaded IMD / TD0 images with mixed record types (model tie `c08 imdseq|td0seq` + reference oracle)
+    let nmix = ctx.n(140, 3000);
+    for k in 0..nmix {
+        let idx = 200000 + k;
+        let mut r = rng.fork(idx as u64);
+        if !ctx.out.wants(idx) { continue; }
+        let res = guarded(|| if k % 2 == 0 { mix::imd_case(ctx, "c08", idx, &mut r, false) } else { mix::td0_case(ctx, "c08", idx, &mut r, false) });
+        if let Err(p) = res { ctx.out.oracle(false, "case-completes", &format!("c08/mixed/case-panic:{}", src_file(&p)), &format!("idx={} panic={}", idx, p)); }
     }
     let _ = SKEW13;
 }
@@ -686,7 +695,9 @@ fn d35_sector_mode(sides: usize) -> Mode {
 
 /// Build the image and its description.  `which` enumerates every (format, kind) pair `mkimage` allows,
 /// plus small DO/PO/D13 images (public constructors) that keep the model runs cheap.
-fn make_image(which: usize, rng: &mut Rng) -> (Box<dyn DiskImage>, Spec) {
+fn make_image(which: usize, rng: &mut Rng, thorough: bool) -> (Box<dyn DiskImage>, Spec) {
+    // quick tier: the 1600-block images (800 KB lists cost a second per request in the driver) go to the direct oracle only
+    let po_model_limit = if thorough { 2000 } else { 1000 };
     let vol = 1 + rng.below(254) as u8;
     match which {
         0 => { let t = 2 + rng.below(4); (Box::new(a2kit::img::dsk_do::DO::create(t as u16, 16)),
@@ -696,7 +707,7 @@ fn make_image(which: usize, rng: &mut Rng) -> (Box<dyn DiskImage>, Spec) {
         2 => { let b = *rng.pick(&[8usize, 16, 280]); (Box::new(a2kit::img::dsk_po::PO::create(b as u16)),
             Spec { fmt: "po", label: format!("po/{}", b), model: Some(format!("c08 seq po {}", b)), modes: vec![Mode::Po { blocks: b }], slow: false, raw: Some((0, b * 512)) }) }
         3 => { let b = *rng.pick(&[800usize, 1600, 65535]); (Box::new(a2kit::img::dsk_po::PO::create(b as u16)),
-            Spec { fmt: "po", label: format!("po/{}", b), model: if b < 2000 { Some(format!("c08 seq po {}", b)) } else { None }, modes: vec![Mode::Po { blocks: b }], slow: false, raw: Some((0, b * 512)) }) }
+            Spec { fmt: "po", label: format!("po/{}", b), model: if b < po_model_limit { Some(format!("c08 seq po {}", b)) } else { None }, modes: vec![Mode::Po { blocks: b }], slow: false, raw: Some((0, b * 512)) }) }
         4 => { let t = *rng.pick(&[2usize, 3, 35]); (Box::new(a2kit::img::dsk_d13::D13::create(t as u16)),
             Spec { fmt: "d13", label: format!("d13/{}", t), model: Some(format!("c08 seq d13 {}", t)), modes: vec![Mode::D13 { tracks: t }, chs_grid(t, 1, 0, 13, 256)], slow: false, raw: Some((0, t * 13 * 256)) }) }
         5 => {
@@ -717,7 +728,7 @@ fn make_image(which: usize, rng: &mut Rng) -> (Box<dyn DiskImage>, Spec) {
             let (kind, b) = *rng.pick(&[(names::A2_400_KIND, 800usize), (names::A2_800_KIND, 1600), (names::A2_HD_MAX, 65535)]);
             let wrap = "po".to_string();
             let img = a2kit::img::dot2mg::Dot2mg::create(vol, kind, if rng.chance(50) { None } else { Some(&wrap) }).expect("2mg");
-            (img, Spec { fmt: "2mg", label: format!("2mg/po{}", b), model: if b < 2000 { Some(format!("c08 seq mgpo {} 0", b)) } else { None }, modes: vec![Mode::Po { blocks: b }], slow: false, raw: Some((64, b * 512)) })
+            (img, Spec { fmt: "2mg", label: format!("2mg/po{}", b), model: if b < po_model_limit { Some(format!("c08 seq mgpo {} 0", b)) } else { None }, modes: vec![Mode::Po { blocks: b }], slow: false, raw: Some((64, b * 512)) })
         }
         8 => { let d33 = rng.chance(60); (Box::new(a2kit::img::nib::Nib::create(vol, if d33 { names::A2_DOS33_KIND } else { names::A2_DOS32_KIND })),
             Spec { fmt: "nib", label: format!("nib/{}", if d33 { "dos33" } else { "dos32" }), model: None, modes: a2_525_modes(d33), slow: true, raw: None }) }
@@ -783,7 +794,8 @@ fn do_write(img: &mut Box<dyn DiskImage>, a: &Addr, d: &[u8]) -> Out3 {
 fn pad(d: &[u8], n: usize) -> Vec<u8> { let mut v = d.to_vec(); v.resize(n, 0); v.truncate(n); v }
 
 fn image_case(ctx: &mut Ctx, idx: usize, which: usize, rng: &mut Rng) {
-    let built = guarded(|| make_image(which, rng));
+    let thorough = ctx.tier_thorough;
+    let built = guarded(|| make_image(which, rng, thorough));
     let (mut img, spec) = match built {
         Ok(x) => x,
         Err(p) => { ctx.out.oracle(false, "image-create", &format!("create-panic:{}", src_file(&p)), &format!("idx={} which={} {}", idx, which, p)); ctx.out.case(&[which as u8], false); return; }
@@ -821,7 +833,7 @@ fn image_case(ctx: &mut Ctx, idx: usize, which: usize, rng: &mut Rng) {
             let k = pick_valid(rng, &mut hot);
             let (a, unit) = mode.valid(k);
             let len = match rng.below(5) { 0 => rng.below(unit), 1 => unit + 1 + rng.below(300), 2 => 0, _ => unit };
-            let dat = if rng.chance(15) { vec![rng.byte(); len] } else { rng.bytes(len) };
+            let dat = if rng.chance(15) { vec![rng.byte(); len] } else if rng.chance(40) { gen_data(rng, len).0 } else { rng.bytes(len) };
             desc += &format!("W{:?}/{} ", a, len);
             canon.push(b'W'); canon.extend_from_slice(format!("{:?}", a).as_bytes()); canon.extend_from_slice(&dat);
             let res = do_write(&mut img, &a, &dat);
@@ -948,5 +960,622 @@ fn witness_cases(ctx: &mut Ctx, base: usize) {
             Out3::Panic(_) => ctx.out.oracle(false, "invalid-refused", &format!("{}/invalid-panic", sg), &desc),
         }
         ctx.out.case(desc.as_bytes(), false);
+    }
+}
+
+// ------------------------------------------------------------------------------------------------
+// Part C (idx 200000..): LOADED IMD / TD0 images with any mix of sector record types.
+//
+// Images that a2kit creates have only full, readable sector records.  Dumps of real disks do not: IMD has
+// "data unavailable" records (type 0, no data follows), compressed records (even types: one fill byte),
+// deleted-data / data-error variants; TD0 has skipped / no-data sectors (flags 0x10 / 0x20, no data block),
+// duplicated / CRC-error / deleted flags and three data encodings (raw, repeated pattern, run length).
+// `mix` builds such images as BYTES from a structured description with an encoder that shares nothing with
+// a2kit, keeps a reference of what every address must hold (with the rotating head, so that duplicated ids are
+// decided like the real drive decides them), and predicts the bytes a save must produce.
+// ------------------------------------------------------------------------------------------------
+pub mod mix {
+    use crate::util::*;
+    use a2kit::img::DiskImage;
+
+    pub fn crc16(buf: &[u8]) -> u16 {
+        let mut crc: u16 = 0;
+        for b in buf {
+            crc ^= (*b as u16) << 8;
+            for _ in 0..8 { crc = if crc & 0x8000 != 0 { (crc << 1) ^ 0xa097 } else { crc << 1 }; }
+        }
+        crc
+    }
+    fn uniform(b: &[u8]) -> bool { b.iter().all(|x| *x == b[0]) }
+    fn pad(d: &[u8], n: usize) -> Vec<u8> { let mut v = d.to_vec(); v.resize(n, 0); v }
+    fn src_file(p: &str) -> String {
+        let s = p.split(" [").next().unwrap_or(p);
+        let s = match s.find("src/") { Some(k) => &s[k..], None => s };
+        s.split(':').next().unwrap_or(s).to_string()
+    }
+
+    /// sector content: the shared structured generator (uniform, two-periodic `ABAB…`, k-periodic, runs, CR LF only,
+    /// uniform but one byte, zeros, random …) plus the fill byte of fresh CP/M / FAT data areas
+    fn content(rng: &mut Rng, size: usize) -> Vec<u8> {
+        if rng.chance(8) { return vec![0xe5; size]; }
+        gen_data(rng, size).0
+    }
+    /// data handed to write_sector: short, exact, long, empty
+    fn write_data(rng: &mut Rng, size: usize) -> Vec<u8> {
+        let len = match rng.below(8) { 0 => rng.below(size), 1 => size + 1 + rng.below(40), 2 => 0, 3 => 1 + rng.below(16), _ => size };
+        content(rng, len)
+    }
+
+    /// ids of the `n` sectors of a track: a rotated / interleaved run, sometimes with a duplicate
+    fn sector_ids(rng: &mut Rng, n: usize) -> Vec<u8> {
+        if n == 0 { return vec![]; }
+        let first = *rng.pick(&[1usize, 1, 1, 0, 10, 65, 247]);
+        let mut ids: Vec<u8> = (0..n).map(|i| (first + i) as u8).collect();
+        match rng.below(3) { 0 => {}, 1 => ids.rotate_left(rng.below(n)), _ => { for i in (1..n).rev() { let j = rng.below(i + 1); ids.swap(i, j); } } }
+        if n > 1 && rng.chance(7) { let a = rng.below(n); let b = (a + 1 + rng.below(n - 1)) % n; ids[b] = ids[a]; }
+        ids
+    }
+
+    /// the head of a track with `n` records standing on record `pos`: first record with this id that passes
+    fn seek(ids: &[u8], pos: &mut usize, id: usize) -> Option<usize> {
+        let n = ids.len();
+        for k in 1..=n { let j = (*pos + k) % n; if ids[j] as usize == id { *pos = j; return Some(j); } }
+        None
+    }
+
+    // ------------------------------------------------------------------------ IMD
+    #[derive(Clone, Debug)]
+    pub struct ImdSec { pub id: u8, pub code: u8, pub data: Vec<u8> }
+    #[derive(Clone, Debug)]
+    pub struct ImdTrk { pub mode: u8, pub cyl: u8, pub head: u8, pub cmap: bool, pub hmap: bool, pub shift: u8, pub secs: Vec<ImdSec>, pub pos: usize }
+    #[derive(Clone, Debug)]
+    pub struct ImdDesc { pub header: Vec<u8>, pub comment: Vec<u8>, pub tracks: Vec<ImdTrk> }
+
+    /// the IMD file format as documented by ImageDisk: header line, comment, 0x1A, then per track
+    /// mode, cylinder, head (+0x80 cylinder map, +0x40 head map), sector count, size code, maps, records
+    pub fn imd_encode(d: &ImdDesc) -> Vec<u8> {
+        let mut b = d.header.clone();
+        b.extend_from_slice(&d.comment);
+        b.push(0x1a);
+        for t in &d.tracks {
+            b.extend_from_slice(&[t.mode, t.cyl, t.head | if t.cmap { 0x80 } else { 0 } | if t.hmap { 0x40 } else { 0 }, t.secs.len() as u8, t.shift]);
+            for s in &t.secs { b.push(s.id); }
+            if t.cmap { for _ in &t.secs { b.push(t.cyl); } }
+            if t.hmap { for _ in &t.secs { b.push(t.head); } }
+            for s in &t.secs {
+                b.push(s.code);
+                match s.code { 0 => {}, 2 | 4 | 6 | 8 => b.push(s.data[0]), _ => b.extend_from_slice(&s.data) }
+            }
+        }
+        b
+    }
+    /// what a save must look like: every sector with data is stored compressed iff it is uniform, the
+    /// deleted / error attribute of the record kept
+    pub fn imd_saved(d: &ImdDesc) -> ImdDesc {
+        let mut o = d.clone();
+        for t in &mut o.tracks { for s in &mut t.secs {
+            if s.code != 0 { let base = if s.code % 2 == 0 { s.code - 1 } else { s.code }; s.code = if uniform(&s.data) { base + 1 } else { base }; }
+        } }
+        o
+    }
+
+    pub fn gen_imd(rng: &mut Rng) -> ImdDesc {
+        let header = format!("IMD 1.1{}: {:02}/{:02}/{:04} {:02}:{:02}:{:02}", rng.below(10), 1 + rng.below(28), 1 + rng.below(12), 1980 + rng.below(40), rng.below(24), rng.below(60), rng.below(60)).into_bytes();
+        assert_eq!(header.len(), 29);
+        let words = ["dump of a damaged disk", "side A", "retry count 5", "", "CP/M 2.2 system", "line one\r\nline two", "x"];
+        let comment = rng.pick(&words[..]).as_bytes().to_vec();
+        let ntr = 1 + rng.below(4);
+        let mut tracks: Vec<ImdTrk> = Vec::new();
+        for k in 0..ntr {
+            let (cyl, head) = if k > 0 && rng.chance(10) { (tracks[k - 1].cyl, tracks[k - 1].head) } else { ((k / 2) as u8 + if rng.chance(10) { 5 } else { 0 }, (k % 2) as u8) };
+            let shift = *rng.pick(&[0u8, 0, 1, 1, 2, 2, 3]);
+            let size = 128usize << shift;
+            let n = if rng.chance(4) { 0 } else { 1 + rng.below(9) };
+            let ids = sector_ids(rng, n);
+            // the mix: "plain" tracks exist too, most tracks have unavailable and compressed records in front of others
+            let plain = rng.chance(15);
+            let secs = ids.iter().map(|id| {
+                let code = if plain { 1 } else { *rng.pick(&[0u8, 0, 0, 1, 1, 1, 1, 2, 2, 2, 3, 4, 5, 6, 7, 8]) };
+                let data = match code { 0 => vec![], 2 | 4 | 6 | 8 => vec![rng.byte(); size], _ => content(rng, size) };
+                ImdSec { id: *id, code, data }
+            }).collect();
+            tracks.push(ImdTrk { mode: rng.below(6) as u8, cyl, head, cmap: rng.chance(10), hmap: rng.chance(15), shift, secs, pos: 0 });
+        }
+        ImdDesc { header, comment, tracks }
+    }
+
+    fn leaf(meta: &str, path: &[&str]) -> Option<String> {
+        let j = json::parse(meta).ok()?;
+        let mut cur = &j;
+        for k in path { if !cur.has_key(k) { return None; } cur = &cur[*k]; }
+        cur.as_str().map(|s| s.to_string())
+    }
+
+    struct Seq { ops: Vec<String>, ans: Vec<String>, fails: Vec<(String, String, String)>, stop: bool }
+    impl Seq {
+        fn fail(&mut self, oracle: &str, sig: String, what: String) { self.fails.push((oracle.to_string(), sig, what)); }
+    }
+
+    fn note_texts(rng: &mut Rng, imd: bool) -> String {
+        let base = ["", "x", "backup of the accounting diskette", "made from drive B:\nverified twice", "three\nlines\nhere", "crlf line\r\nnext", "ünïcödé 日本語",
+                    "a much longer text that certainly does not have the length of the comment the image was loaded with, repeated: "];
+        let mut s = rng.pick(&base[..]).to_string();
+        if rng.chance(20) { let k = 1 + rng.below(6); s = s.repeat(k); }
+        if rng.chance(6) { s.push(if imd { '\u{1a}' } else { '\u{0}' }); s.push_str("tail"); }
+        s
+    }
+
+    /// one op sequence on a loaded IMD image; `fam` = `c08` (sector storage) or `c09` (with metadata edits, saves, reloads)
+    pub fn imd_case(ctx: &mut Ctx, fam: &str, idx: usize, rng: &mut Rng, with_meta: bool) {
+        let mut d = gen_imd(rng);
+        let file = imd_encode(&d);
+        let sigp = format!("{}/imd/mixed-records", fam);
+        let mut desc = format!("idx={} imd-mixed tracks=[{}] file={} ops=", idx,
+            d.tracks.iter().map(|t| format!("c{}h{}z{}:{}", t.cyl, t.head, 128 << t.shift, t.secs.iter().map(|s| format!("{}/{}", s.id, s.code)).collect::<Vec<_>>().join(","))).collect::<Vec<_>>().join(" "), hx(&file));
+        let mut img: Box<dyn DiskImage> = match guarded(|| a2kit::img::imd::Imd::from_bytes(&file)) {
+            Ok(Ok(i)) => Box::new(i),
+            Ok(Err(e)) => { ctx.out.q(&format!("{} imdseq {} -", fam, hx(&file)), "load:err"); ctx.out.oracle(false, "mixed-image-loads", &format!("{}/load-refused", sigp), &format!("{} err={}", desc, e)); ctx.out.case(&file, false); return; }
+            Err(p) => { ctx.out.q(&format!("{} imdseq {} -", fam, hx(&file)), "load:panic"); ctx.out.oracle(false, "mixed-image-loads", &format!("{}/load-panic:{}", sigp, src_file(&p)), &format!("{} panic={}", desc, p)); ctx.out.case(&file, false); return; }
+        };
+        // after loading, compressed records are ordinary records: the reference keeps the decoded content
+        let mut q = Seq { ops: vec![], ans: vec!["load:ok".into()], fails: vec![], stop: false };
+        let mut last_w: Option<(usize, usize)> = None;
+        let nops = 10 + rng.below(22);
+        let ntr = d.tracks.len();
+        let mut wrote = false; let mut read_after = false;
+        let mut plan: Vec<usize> = (0..nops).map(|_| rng.below(100)).collect();
+        // final sweep: every record of every track once more (through the model as well)
+        plan.push(1000);
+        for r in plan {
+            if q.stop { break; }
+            if r == 1000 {
+                for ti in 0..ntr { for si in 0..d.tracks[ti].secs.len() { if !q.stop { let id = d.tracks[ti].secs[si].id as usize; imd_read(&mut img, &mut d, &mut q, ti, id, &sigp, last_w, &mut desc); } } }
+                continue;
+            }
+            let ti = rng.below(ntr);
+            let (cyl, head) = (d.tracks[ti].cyl as usize, d.tracks[ti].head as usize);
+            // the first track with this cylinder and head is the one that is addressed
+            let ti = d.tracks.iter().position(|t| t.cyl as usize == cyl && t.head as usize == head).unwrap();
+            let n = d.tracks[ti].secs.len();
+            let size = 128usize << d.tracks[ti].shift;
+            if r < 38 && n > 0 {
+                let si = rng.below(n);
+                let id = d.tracks[ti].secs[si].id as usize;
+                let dat = write_data(rng, size);
+                desc += &format!("W{}/{}/{}:{} ", cyl, head, id, dat.len());
+                q.ops.push(format!("ws:{}:{}:{}:{}", cyl, head, id, hx(&dat)));
+                let res = guarded(|| img.write_sector(cyl, head, id, &dat).map_err(|e| e.to_string()));
+                let t = &mut d.tracks[ti];
+                let ids: Vec<u8> = t.secs.iter().map(|s| s.id).collect();
+                let hit = seek(&ids, &mut t.pos, id).unwrap();
+                match res {
+                    Ok(Ok(())) => {
+                        q.ans.push("ok".into());
+                        if t.secs[hit].code == 0 { q.fail("unavailable-refused", format!("{}/unavailable-write-accepted", sigp), format!("write to c{} h{} id {} (record {}: data unavailable) accepted", cyl, head, id, hit)); }
+                        else { t.secs[hit].data = pad(&dat[..dat.len().min(size)], size); last_w = Some((ti, hit)); wrote = true; }
+                    }
+                    Ok(Err(_)) => {
+                        q.ans.push("err".into());
+                        if t.secs[hit].code != 0 { q.fail("valid-write-accepted", format!("{}/valid-write-refused", sigp), format!("write to c{} h{} id {} (record {} type {}) refused", cyl, head, id, hit, t.secs[hit].code)); }
+                    }
+                    Err(p) => { q.ans.push("panic".into()); q.stop = true; q.fail("no-panic", format!("{}/write-panic:{}", sigp, src_file(&p)), format!("write c{} h{} id {} panic={}", cyl, head, id, p)); }
+                }
+                // look at one or two neighbours right away (frame)
+                for _ in 0..rng.below(3) { if !q.stop { let sj = rng.below(n); let idj = d.tracks[ti].secs[sj].id as usize; if imd_read(&mut img, &mut d, &mut q, ti, idj, &sigp, last_w, &mut desc) && wrote { read_after = true; } } }
+            } else if r < 72 && n > 0 {
+                let si = rng.below(n);
+                let id = d.tracks[ti].secs[si].id as usize;
+                if imd_read(&mut img, &mut d, &mut q, ti, id, &sigp, last_w, &mut desc) && wrote { read_after = true; }
+            } else if r < 84 {
+                // an address that does not exist: no such cylinder / head / sector id; write or read
+                let ids: Vec<usize> = d.tracks[ti].secs.iter().map(|s| s.id as usize).collect();
+                let bad = |rng: &mut Rng| -> usize { loop { let c = match rng.below(4) { 0 => 256 + rng.below(300), 1 => rng.below(256), 2 => ids.iter().max().map(|m| m + 1).unwrap_or(1), _ => 65536 + ids.first().cloned().unwrap_or(0) }; if !ids.contains(&c) { return c; } } };
+                let (c, h, s) = match rng.below(3) { 0 => (cyl, head, bad(rng)), 1 => (200 + rng.below(100), head, ids.first().cloned().unwrap_or(1)), _ => (cyl, 2 + rng.below(14), ids.first().cloned().unwrap_or(1)) };
+                let write = rng.chance(50);
+                let dat = write_data(rng, size);
+                desc += &format!("{}!{}/{}/{} ", if write { "W" } else { "R" }, c, h, s);
+                q.ops.push(if write { format!("ws:{}:{}:{}:{}", c, h, s, hx(&dat)) } else { format!("rs:{}:{}:{}", c, h, s) });
+                let res = guarded(|| if write { img.write_sector(c, h, s, &dat).map(|_| vec![]).map_err(|e| e.to_string()) } else { img.read_sector(c, h, s).map_err(|e| e.to_string()) });
+                match res {
+                    Ok(Ok(v)) => { q.ans.push(if write { "ok".into() } else { format!("ok:{}", hx(&v)) }); q.fail("invalid-refused", format!("{}/invalid-accepted", sigp), format!("c{} h{} id {} does not exist but was {}", c, h, s, if write { "written" } else { "read" })); if write { q.stop = true; } }
+                    Ok(Err(_)) => q.ans.push("err".into()),
+                    Err(p) => { q.ans.push("panic".into()); q.stop = true; q.fail("invalid-refused", format!("{}/invalid-panic:{}", sigp, src_file(&p)), format!("c{} h{} id {} panic={}", c, h, s, p)); }
+                }
+                // a failed search leaves the head where it was (a whole revolution)
+            } else if r < 92 || (with_meta && r < 96) {
+                imd_save(&mut img, &mut d, &mut q, &sigp, &mut desc, false);
+            } else if with_meta {
+                let v = note_texts(rng, true);
+                desc += &format!("CM{:?} ", v);
+                q.ops.push(format!("cm:{}", hx(v.as_bytes())));
+                let res = guarded(|| img.put_metadata(&vec!["imd".to_string(), "comment".to_string()], &json::JsonValue::String(v.clone())).map_err(|e| e.to_string()));
+                match res {
+                    Ok(Ok(())) => { q.ans.push("ok".into()); if v.contains('\u{1a}') { q.fail("metadata-put", format!("{}/comment-with-terminator-accepted", sigp), format!("{:?}", v)); } else { d.comment = v.as_bytes().to_vec(); } }
+                    Ok(Err(_)) => { q.ans.push("refused".into()); if !v.contains('\u{1a}') { q.fail("metadata-put", format!("{}/comment-refused", sigp), format!("{:?}", v)); } }
+                    Err(p) => { q.ans.push("panic".into()); q.stop = true; q.fail("no-panic", format!("{}/put_metadata-panic:{}", sigp, src_file(&p)), p); }
+                }
+                if !q.stop {
+                    q.ops.push("mg".into());
+                    let got = leaf(&img.get_metadata(None), &["imd", "comment"]);
+                    q.ans.push(match &got { Some(s) => format!("mg:{}", hx(s.as_bytes())), None => "mg:none".into() });
+                    if got.as_deref().map(|s| s.as_bytes()) != Some(&d.comment[..]) { q.fail("metadata-put-then-get", format!("{}/comment-put-get-differs", sigp), format!("want {:?} got {:?}", String::from_utf8_lossy(&d.comment), got)); }
+                }
+            } else {
+                imd_save(&mut img, &mut d, &mut q, &sigp, &mut desc, true);
+            }
+        }
+        let nontrivial = wrote && read_after && d.tracks.iter().any(|t| t.secs.iter().any(|s| s.code == 0) || t.secs.iter().any(|s| s.code % 2 == 0));
+        finish_seq(ctx, fam, "imdseq", &file, q, &desc, nontrivial, "imd");
+    }
+
+    /// read one sector through the real code, compare with the reference; returns true if it was a record with data
+    fn imd_read(img: &mut Box<dyn DiskImage>, d: &mut ImdDesc, q: &mut Seq, ti: usize, id: usize, sigp: &str, last_w: Option<(usize, usize)>, desc: &mut String) -> bool {
+        let (cyl, head) = (d.tracks[ti].cyl as usize, d.tracks[ti].head as usize);
+        // a second track with the same cylinder and head is shadowed by the first
+        let ti = d.tracks.iter().position(|t| t.cyl as usize == cyl && t.head as usize == head).unwrap();
+        *desc += &format!("R{}/{}/{} ", cyl, head, id);
+        q.ops.push(format!("rs:{}:{}:{}", cyl, head, id));
+        let res = guarded(|| img.read_sector(cyl, head, id).map_err(|e| e.to_string()));
+        let t = &mut d.tracks[ti];
+        let ids: Vec<u8> = t.secs.iter().map(|s| s.id).collect();
+        let hit = match seek(&ids, &mut t.pos, id) { Some(h) => h, None => {
+            // the id only exists on the shadowed track: an invalid address
+            match res { Ok(Ok(v)) => { q.ans.push(format!("ok:{}", hx(&v))); q.fail("invalid-refused", format!("{}/invalid-accepted", sigp), format!("c{} h{} id {} is not on the first track with that cylinder and head", cyl, head, id)); }
+                        Ok(Err(_)) => q.ans.push("err".into()),
+                        Err(p) => { q.ans.push("panic".into()); q.stop = true; q.fail("invalid-refused", format!("{}/invalid-panic:{}", sigp, src_file(&p)), p); } }
+            return false; } };
+        let s = &t.secs[hit];
+        match res {
+            Ok(Ok(v)) => {
+                q.ans.push(format!("ok:{}", hx(&v)));
+                if s.code == 0 { q.fail("unavailable-refused", format!("{}/unavailable-read-accepted", sigp), format!("c{} h{} id {} (record {}) has no data but a read returned {} bytes", cyl, head, id, hit, v.len())); }
+                else if v != s.data {
+                    let what = if last_w == Some((ti, hit)) { "readback-differs" } else { "frame" };
+                    let at = v.iter().zip(s.data.iter()).position(|(a, b)| a != b);
+                    q.fail(if what == "frame" { "other-sectors-unchanged" } else { "read-after-write" }, format!("{}/{}", sigp, what), format!("c{} h{} id {} (record {} of {}): {} bytes, first difference at {:?}, last write went to {:?}", cyl, head, id, hit, ids.len(), v.len(), at, last_w));
+                }
+                s.code != 0
+            }
+            Ok(Err(_)) => {
+                q.ans.push("err".into());
+                if s.code != 0 { q.fail("valid-read-accepted", format!("{}/valid-read-refused", sigp), format!("c{} h{} id {} (record {} type {}) refused", cyl, head, id, hit, s.code)); }
+                false
+            }
+            Err(p) => { q.ans.push("panic".into()); q.stop = true; q.fail("no-panic", format!("{}/read-panic:{}", sigp, src_file(&p)), format!("read c{} h{} id {} (record {}) panic={}", cyl, head, id, hit, p)); false }
+        }
+    }
+
+    fn imd_save(img: &mut Box<dyn DiskImage>, d: &mut ImdDesc, q: &mut Seq, sigp: &str, desc: &mut String, reload: bool) {
+        *desc += if reload { "LD " } else { "SV " };
+        let want = imd_encode(&imd_saved(d));
+        match guarded(|| img.to_bytes()) {
+            Ok(b) => {
+                if !reload { q.ops.push("sv".into()); q.ans.push(format!("sv:{}:{}", b.len(), fnv(&b))); }
+                if b != want { q.fail("saved-bytes", format!("{}/save-differs", sigp), format!("to_bytes gives {} bytes, the records of the reference encode to {} bytes, first difference at {:?}", b.len(), want.len(), b.iter().zip(want.iter()).position(|(a, b)| a != b))); }
+                if reload {
+                    q.ops.push("ld".into());
+                    match guarded(|| a2kit::img::imd::Imd::from_bytes(&b)) {
+                        Ok(Ok(i)) => { *img = Box::new(i); q.ans.push("ok".into()); for t in &mut d.tracks { t.pos = 0; } }
+                        Ok(Err(e)) => { q.ans.push("err".into()); q.fail("saved-image-reloads", format!("{}/reload-refused", sigp), e.to_string()); }
+                        Err(p) => { q.ans.push("panic".into()); q.stop = true; q.fail("saved-image-reloads", format!("{}/reload-panic:{}", sigp, src_file(&p)), p); }
+                    }
+                }
+            }
+            Err(p) => { q.ops.push(if reload { "ld" } else { "sv" }.into()); q.ans.push("panic".into()); q.stop = true; q.fail("no-panic", format!("{}/to_bytes-panic:{}", sigp, src_file(&p)), p); }
+        }
+    }
+
+    fn finish_seq(ctx: &mut Ctx, fam: &str, op: &str, file: &[u8], q: Seq, desc: &str, nontrivial: bool, typ: &str) {
+        ctx.out.q(&format!("{} {} {} {}", fam, op, hx(file), if q.ops.is_empty() { "-".to_string() } else { q.ops.join(";") }), &q.ans.join(";"));
+        if q.fails.is_empty() { ctx.out.oracle(true, "mixed-image-store", "-", &format!("idx={}", desc.split(' ').next().unwrap_or("").trim_start_matches("idx="))); }
+        let mut seen = std::collections::BTreeSet::new();
+        for (o, s, w) in &q.fails { if seen.insert((o.clone(), s.clone())) { ctx.out.oracle(false, o, s, &format!("{} :: {}", desc, w)); } }
+        ctx.out.sample(&desc.chars().take(500).collect::<String>());
+        ctx.out.count(&format!("mixed:{}", typ));
+        ctx.out.case(desc.as_bytes(), nontrivial);
+    }
+
+    // ------------------------------------------------------------------------ TD0
+    #[derive(Clone, Debug)]
+    pub struct TdSec { pub hdr: [u8; 5], pub crc: u8, pub rec: Vec<u8>, pub content: Option<Vec<u8>> }
+    #[derive(Clone, Debug)]
+    pub struct TdTrk { pub cyl: u8, pub head: u8, pub secs: Vec<TdSec>, pub pos: usize }
+    #[derive(Clone, Debug)]
+    pub struct TdDesc { pub hdr8: Vec<u8>, pub comment: Option<(Vec<u8>, Vec<u8>)>, pub tracks: Vec<TdTrk> }
+    impl TdSec { fn id(&self) -> u8 { self.hdr[2] } fn shift(&self) -> u8 { self.hdr[3] } fn flags(&self) -> u8 { self.hdr[4] } fn nodata(&self) -> bool { self.hdr[4] & 0x30 != 0 } }
+
+    /// Teledisk without advanced compression as described in Dunfield's notes: 12-byte header with CRC, optional
+    /// comment block (CRC, length, time stamp, text), track headers (count, cylinder, head, CRC byte), sector headers
+    /// (cylinder, head, id, size code, flags, CRC byte), data blocks (length word, encoding, payload), 0xFF, trailer
+    pub fn td_encode(d: &TdDesc) -> Vec<u8> {
+        let mut b = vec![b'T', b'D'];
+        let mut h = d.hdr8.clone();
+        if d.comment.is_some() { h[5] |= 0x80 } else { h[5] &= 0x7f }
+        b.extend_from_slice(&h);
+        let c = crc16(&b);
+        b.extend_from_slice(&c.to_le_bytes());
+        if let Some((stamp, text)) = &d.comment {
+            let mut body = (text.len() as u16).to_le_bytes().to_vec();
+            body.extend_from_slice(stamp);
+            body.extend_from_slice(text);
+            b.extend_from_slice(&crc16(&body).to_le_bytes());
+            b.extend_from_slice(&body);
+        }
+        for t in &d.tracks {
+            let th = [t.secs.len() as u8, t.cyl, t.head];
+            b.extend_from_slice(&th);
+            b.push((crc16(&th) & 0xff) as u8);
+            for s in &t.secs {
+                b.extend_from_slice(&s.hdr);
+                b.push(s.crc);
+                if !s.nodata() { b.extend_from_slice(&s.rec); }
+            }
+        }
+        b.push(0xff);
+        b.extend_from_slice(&[0x27, 0x09, 0xe1, 0xc5, 0x89, 0x05, 0x76]);
+        b
+    }
+    /// what a save must look like: CRC bytes of the sectors that decode are recomputed
+    pub fn td_saved(d: &TdDesc) -> TdDesc {
+        let mut o = d.clone();
+        for t in &mut o.tracks { for s in &mut t.secs { if !s.nodata() { if let Some(c) = &s.content { s.crc = (crc16(c) & 0xff) as u8; } } } }
+        o
+    }
+    /// end of the structured part of a normal-layer stream (behind the 7 trailer bytes), by walking it
+    pub fn td_end(x: &[u8]) -> Option<usize> {
+        if x.len() < 12 { return None; }
+        let mut p = 12;
+        if x[7] & 0x80 != 0 { if x.len() < p + 10 { return None; } p += 10 + (x[p + 2] as usize + 256 * x[p + 3] as usize); }
+        loop {
+            if p >= x.len() { return None; }
+            if x[p] == 0xff { return Some((p + 8).min(x.len())); }
+            if p + 4 > x.len() { return None; }
+            let n = x[p]; p += 4;
+            for _ in 0..n {
+                if p + 6 > x.len() { return None; }
+                let fl = x[p + 4]; p += 6;
+                if fl & 0x30 == 0 { if p + 2 > x.len() { return None; } p += 2 + (x[p] as usize + 256 * x[p + 1] as usize); }
+            }
+        }
+    }
+    fn td_pack(dat: &[u8]) -> Vec<u8> {
+        if uniform(dat) { let mut r = vec![5, 0, 1]; r.extend_from_slice(&((dat.len() / 2) as u16).to_le_bytes()); r.push(dat[0]); r.push(dat[0]); r }
+        else { let mut r = ((dat.len() + 1) as u16).to_le_bytes().to_vec(); r.push(0); r.extend_from_slice(dat); r }
+    }
+    /// a data block of `size` bytes in one of the three encodings, built from its structure; returns (record, content)
+    fn td_block(rng: &mut Rng, size: usize) -> (Vec<u8>, Option<Vec<u8>>) {
+        let mut body: Vec<u8> = Vec::new();
+        let mut out: Vec<u8> = Vec::new();
+        let enc = *rng.pick(&[0u8, 0, 1, 1, 1, 2, 2, 3]);
+        match enc {
+            0 => { out = content(rng, size); body = out.clone(); }
+            1 => { let mut left = size / 2; while left > 0 { let c = if rng.chance(55) { left } else { 1 + rng.below(left) }; let (a, b) = if rng.chance(50) { let v = rng.byte(); (v, v) } else { (rng.byte(), rng.byte()) };
+                    body.extend_from_slice(&(c as u16).to_le_bytes()); body.push(a); body.push(b); for _ in 0..c { out.push(a); out.push(b); } left -= c; } }
+            2 => { while out.len() < size { let left = size - out.len();
+                    if rng.chance(45) || left < 2 { let n = 1 + rng.below(left.min(255)); let lit = rng.bytes(n); body.push(0); body.push(n as u8); body.extend_from_slice(&lit); out.extend_from_slice(&lit); }
+                    else { let rc = 1 + rng.below(4.min(left / 2)); let rep = 1 + rng.below((left / (2 * rc)).min(255)); let pat = rng.bytes(2 * rc); body.push(rc as u8); body.push(rep as u8); body.extend_from_slice(&pat); for _ in 0..rep { out.extend_from_slice(&pat); } } } }
+            _ => { // a block that does not decode to a whole sector: too short, or an unknown encoding
+                   let nb = rng.below(9); body = rng.bytes(nb); let mut rec = ((body.len() + 1) as u16).to_le_bytes().to_vec(); rec.push(*rng.pick(&[0u8, 1, 2, 3, 9])); rec.extend_from_slice(&body); return (rec, None); }
+        }
+        let mut rec = ((body.len() + 1) as u16).to_le_bytes().to_vec();
+        rec.push(enc);
+        rec.extend_from_slice(&body);
+        (rec, Some(out))
+    }
+
+    pub fn gen_td0(rng: &mut Rng) -> TdDesc {
+        let sides = 1 + rng.below(2) as u8;
+        let hdr8 = vec![0, rng.byte(), 0x15, *rng.pick(&[0u8, 1, 2, 0x80]), rng.below(7) as u8, rng.below(3) as u8, rng.below(2) as u8, sides];
+        let texts: [&[u8]; 6] = [b"", b"disk 3 of 7", b"line one\0line two", b"dumped with TELEDISK 2.15\0\0", b"x", b"Backup of the accounting diskette\0made from drive B:"];
+        let comment = if rng.chance(65) { Some((vec![80 + rng.below(40) as u8, rng.below(12) as u8, 1 + rng.below(28) as u8, rng.below(24) as u8, rng.below(60) as u8, rng.below(60) as u8], rng.pick(&texts[..]).to_vec())) } else { None };
+        let ntr = 1 + rng.below(4);
+        let mut tracks: Vec<TdTrk> = Vec::new();
+        for k in 0..ntr {
+            let (cyl, head) = if k > 0 && rng.chance(8) { (tracks[k - 1].cyl, tracks[k - 1].head) } else { ((k / 2) as u8 + if rng.chance(10) { 7 } else { 0 }, (k % 2) as u8) };
+            let n = if rng.chance(4) { 0 } else { 1 + rng.below(8) };
+            let ids = sector_ids(rng, n);
+            let tshift = *rng.pick(&[0u8, 1, 1, 2, 2, 3]);
+            let plain = rng.chance(12);
+            let secs = ids.iter().map(|id| {
+                let shift = if rng.chance(8) { rng.below(4) as u8 } else { tshift };
+                let mut flags = if plain { 0 } else { *rng.pick(&[0u8, 0, 0, 0, 0x10, 0x10, 0x20, 0x30, 0x01, 0x02, 0x04, 0x40, 0x14, 0x05]) };
+                let (rec, content) = if flags & 0x30 != 0 { (vec![], None) } else { td_block(rng, 128usize << shift) };
+                if content.is_none() && flags & 0x30 == 0 && rng.chance(50) { flags |= 0x02; }
+                // the CRC byte in the file: right, or (CRC-error dumps) wrong
+                let crc = match &content { Some(c) if flags & 0x02 == 0 || rng.chance(50) => (crc16(c) & 0xff) as u8, _ => rng.byte() };
+                TdSec { hdr: [if rng.chance(90) { cyl } else { rng.byte() }, if rng.chance(90) { head } else { rng.below(2) as u8 }, *id, shift, flags], crc, rec, content }
+            }).collect();
+            tracks.push(TdTrk { cyl, head: head | if rng.chance(10) { 0x80 } else { 0 }, secs, pos: 0 });
+        }
+        TdDesc { hdr8, comment, tracks }
+    }
+
+    fn td_notes_mem(text: &[u8]) -> String { String::from_utf8_lossy(text).replace('\u{0}', "\n") }
+    fn td_notes_file(s: &str) -> Vec<u8> { s.replace("\r\n", "\u{0}").replace('\n', "\u{0}").into_bytes() }
+    fn normalize(s: &str) -> String { let mut a = s.to_string(); while a.contains("\r\n") { a = a.replace("\r\n", "\n"); } a }
+
+    fn td_read(img: &mut Box<dyn DiskImage>, d: &mut TdDesc, q: &mut Seq, ti: usize, id: usize, sigp: &str, last_w: Option<(usize, usize)>, desc: &mut String) -> bool {
+        let (cyl, head) = (d.tracks[ti].cyl as usize, (d.tracks[ti].head & 1) as usize);
+        let ti = d.tracks.iter().position(|t| t.cyl as usize == cyl && (t.head & 1) as usize == head).unwrap();
+        *desc += &format!("R{}/{}/{} ", cyl, head, id);
+        q.ops.push(format!("rs:{}:{}:{}", cyl, head, id));
+        let res = guarded(|| img.read_sector(cyl, head, id).map_err(|e| e.to_string()));
+        let t = &mut d.tracks[ti];
+        let ids: Vec<u8> = t.secs.iter().map(|s| s.id()).collect();
+        let hit = match seek(&ids, &mut t.pos, id) { Some(h) => h, None => {
+            match res { Ok(Ok(v)) => { q.ans.push(format!("ok:{}", hx(&v))); q.fail("invalid-refused", format!("{}/invalid-accepted", sigp), format!("c{} h{} id {} is not on the first track with that cylinder and head", cyl, head, id)); }
+                        Ok(Err(_)) => q.ans.push("err".into()),
+                        Err(p) => { q.ans.push("panic".into()); q.stop = true; q.fail("invalid-refused", format!("{}/invalid-panic:{}", sigp, src_file(&p)), p); } }
+            return false; } };
+        let s = &t.secs[hit];
+        let want = if s.nodata() { None } else { s.content.clone() };
+        match res {
+            Ok(Ok(v)) => {
+                q.ans.push(format!("ok:{}", hx(&v)));
+                match want {
+                    None => q.fail("unavailable-refused", format!("{}/no-data-read-accepted", sigp), format!("c{} h{} id {} (record {}, flags {:02x}) has no decodable data but a read returned {} bytes", cyl, head, id, hit, s.flags(), v.len())),
+                    Some(w) => if v != w {
+                        let what = if last_w == Some((ti, hit)) { "readback-differs" } else { "frame" };
+                        q.fail(if what == "frame" { "other-sectors-unchanged" } else { "read-after-write" }, format!("{}/{}", sigp, what), format!("c{} h{} id {} (record {} of {}): {} bytes, first difference at {:?}, last write went to {:?}", cyl, head, id, hit, ids.len(), v.len(), v.iter().zip(w.iter()).position(|(a, b)| a != b), last_w));
+                    }
+                }
+                true
+            }
+            Ok(Err(_)) => {
+                q.ans.push("err".into());
+                if want.is_some() {
+                    let what = if last_w == Some((ti, hit)) { "written-sector-unreadable" } else { "valid-read-refused" };
+                    q.fail(if last_w == Some((ti, hit)) { "read-after-write" } else { "valid-read-accepted" }, format!("{}/{}", sigp, what), format!("c{} h{} id {} (record {}, flags in the file {:02x}) refused", cyl, head, id, hit, s.flags()));
+                }
+                false
+            }
+            Err(p) => { q.ans.push("panic".into()); q.stop = true; q.fail("no-panic", format!("{}/read-panic:{}", sigp, src_file(&p)), format!("read c{} h{} id {} panic={}", cyl, head, id, p)); false }
+        }
+    }
+
+    fn td_save(img: &mut Box<dyn DiskImage>, d: &mut TdDesc, q: &mut Seq, sigp: &str, desc: &mut String, reload: bool) {
+        *desc += if reload { "LD " } else { "SV " };
+        let want = td_encode(&td_saved(d));
+        match guarded(|| img.to_bytes()) {
+            Ok(b) => {
+                let x = match retrocompressor::td0::expand_slice(&b) { Ok(x) => x, Err(e) => { q.ops.push("sv".into()); q.ans.push("sv:unexpandable".into()); q.fail("saved-bytes", format!("{}/save-does-not-expand", sigp), e.to_string()); return; } };
+                let end = td_end(&x).unwrap_or(x.len());
+                if !reload { q.ops.push("sv".into()); q.ans.push(format!("sv:{}:{}", end, fnv(&x[..end]))); }
+                if x[..end] != want[..] {
+                    let at = x[..end].iter().zip(want.iter()).position(|(a, b)| a != b);
+                    let region = match at { Some(p) if p < 12 => "image header", Some(p) if d.comment.is_some() && p < 14 => "comment CRC", Some(p) if d.comment.is_some() && p < 16 => "comment length", Some(p) if d.comment.as_ref().map(|c| p < 22 + c.1.len()).unwrap_or(false) => "comment block", _ => "track data" };
+                    q.fail("saved-bytes", format!("{}/save-differs:{}", sigp, region.replace(' ', "-")), format!("expanded to_bytes has {} bytes, the reference encodes to {} bytes, first difference at {:?} ({})", end, want.len(), at, region));
+                }
+                // the saved image must load again whatever was edited (this is what a user sees of a bad integrity field)
+                match guarded(|| a2kit::img::td0::Td0::from_bytes(&b)) {
+                    Ok(Ok(i)) => { if reload { q.ops.push("ld".into()); *img = Box::new(i); q.ans.push("ok".into()); for t in &mut d.tracks { t.pos = 0; } } }
+                    Ok(Err(e)) => { if reload { q.ops.push("ld".into()); q.ans.push("err".into()); } q.fail("saved-image-reloads", format!("{}/reload-refused", sigp), e.to_string()); }
+                    Err(p) => { if reload { q.ops.push("ld".into()); q.ans.push("panic".into()); } q.stop = true; q.fail("saved-image-reloads", format!("{}/reload-panic:{}", sigp, src_file(&p)), p); }
+                }
+            }
+            Err(p) => { q.ops.push(if reload { "ld" } else { "sv" }.into()); q.ans.push("panic".into()); q.stop = true; q.fail("no-panic", format!("{}/to_bytes-panic:{}", sigp, src_file(&p)), p); }
+        }
+    }
+
+    /// one op sequence on a loaded TD0 image
+    pub fn td0_case(ctx: &mut Ctx, fam: &str, idx: usize, rng: &mut Rng, with_meta: bool) {
+        let mut d = gen_td0(rng);
+        let file = td_encode(&d);
+        let sigp = format!("{}/td0/mixed-flags", fam);
+        let mut desc = format!("idx={} td0-mixed comment={:?} tracks=[{}] file={} ops=", idx, d.comment.as_ref().map(|c| String::from_utf8_lossy(&c.1).to_string()),
+            d.tracks.iter().map(|t| format!("c{}h{}:{}", t.cyl, t.head, t.secs.iter().map(|s| format!("{}/z{}/f{:02x}/e{}", s.id(), s.shift(), s.flags(), s.rec.get(2).map(|e| e.to_string()).unwrap_or("-".into()))).collect::<Vec<_>>().join(","))).collect::<Vec<_>>().join(" "), hx(&file));
+        let mut img: Box<dyn DiskImage> = match guarded(|| a2kit::img::td0::Td0::from_bytes(&file)) {
+            Ok(Ok(i)) => Box::new(i),
+            Ok(Err(e)) => { ctx.out.q(&format!("{} td0seq {} -", fam, hx(&file)), "load:err"); ctx.out.oracle(false, "mixed-image-loads", &format!("{}/load-refused", sigp), &format!("{} err={}", desc, e)); ctx.out.case(&file, false); return; }
+            Err(p) => { ctx.out.q(&format!("{} td0seq {} -", fam, hx(&file)), "load:panic"); ctx.out.oracle(false, "mixed-image-loads", &format!("{}/load-panic:{}", sigp, src_file(&p)), &format!("{} panic={}", desc, p)); ctx.out.case(&file, false); return; }
+        };
+        // the notes in memory: NUL is a line end
+        if let Some((_, text)) = &mut d.comment { *text = td_notes_file(&normalize(&td_notes_mem(text))); }
+        let mut q = Seq { ops: vec![], ans: vec!["load:ok".into()], fails: vec![], stop: false };
+        let mut last_w: Option<(usize, usize)> = None;
+        let ntr = d.tracks.len();
+        let nops = 10 + rng.below(22);
+        let mut wrote_flagged_uniform = false; let mut wrote = false; let mut read_after = false;
+        let mut plan: Vec<usize> = (0..nops).map(|_| rng.below(100)).collect();
+        plan.push(1000);
+        for r in plan {
+            if q.stop { break; }
+            if r == 1000 {
+                for ti in 0..ntr { for si in 0..d.tracks[ti].secs.len() { if !q.stop { let id = d.tracks[ti].secs[si].id() as usize; td_read(&mut img, &mut d, &mut q, ti, id, &sigp, last_w, &mut desc); } } }
+                continue;
+            }
+            let ti = rng.below(ntr);
+            let (cyl, head) = (d.tracks[ti].cyl as usize, (d.tracks[ti].head & 1) as usize);
+            let ti = d.tracks.iter().position(|t| t.cyl as usize == cyl && (t.head & 1) as usize == head).unwrap();
+            let n = d.tracks[ti].secs.len();
+            if r < 40 && n > 0 {
+                // writes prefer the sectors that have no data yet, and uniform data
+                let flagged: Vec<usize> = (0..n).filter(|i| d.tracks[ti].secs[*i].nodata()).collect();
+                let si = if !flagged.is_empty() && rng.chance(45) { *rng.pick(&flagged) } else { rng.below(n) };
+                let id = d.tracks[ti].secs[si].id() as usize;
+                let t = &mut d.tracks[ti];
+                let ids: Vec<u8> = t.secs.iter().map(|s| s.id()).collect();
+                let hit = seek(&ids, &mut t.pos, id).unwrap();
+                let size = 128usize << t.secs[hit].shift();
+                let dat = write_data(rng, size);
+                desc += &format!("W{}/{}/{}:{} ", cyl, head, id, dat.len());
+                q.ops.push(format!("ws:{}:{}:{}:{}", cyl, head, id, hx(&dat)));
+                let res = guarded(|| img.write_sector(cyl, head, id, &dat).map_err(|e| e.to_string()));
+                match res {
+                    Ok(Ok(())) => {
+                        q.ans.push("ok".into());
+                        let s = &mut t.secs[hit];
+                        let padded = pad(&dat[..dat.len().min(size)], size);
+                        if s.nodata() && uniform(&padded) { wrote_flagged_uniform = true; }
+                        s.hdr[4] &= !0x30; s.rec = td_pack(&padded); s.content = Some(padded);
+                        last_w = Some((ti, hit)); wrote = true;
+                    }
+                    // a sector that is on the track is a valid address whether or not the dump has data for it
+                    Ok(Err(_)) => { q.ans.push("err".into()); q.fail("valid-write-accepted", format!("{}/valid-write-refused", sigp), format!("write to c{} h{} id {} (record {}, flags {:02x}) refused", cyl, head, id, hit, t.secs[hit].flags())); }
+                    Err(p) => { q.ans.push("panic".into()); q.stop = true; q.fail("no-panic", format!("{}/write-panic:{}", sigp, src_file(&p)), format!("write c{} h{} id {} panic={}", cyl, head, id, p)); }
+                }
+                // read it back at once (not through the head's next revolution only), then a neighbour or two
+                if !q.stop && rng.chance(70) { if td_read(&mut img, &mut d, &mut q, ti, id, &sigp, last_w, &mut desc) { read_after = true; } }
+                for _ in 0..rng.below(3) { if !q.stop { let sj = rng.below(n); let idj = d.tracks[ti].secs[sj].id() as usize; td_read(&mut img, &mut d, &mut q, ti, idj, &sigp, last_w, &mut desc); } }
+            } else if r < 70 && n > 0 {
+                let si = rng.below(n);
+                let id = d.tracks[ti].secs[si].id() as usize;
+                if td_read(&mut img, &mut d, &mut q, ti, id, &sigp, last_w, &mut desc) && wrote { read_after = true; }
+            } else if r < 80 {
+                let ids: Vec<usize> = d.tracks[ti].secs.iter().map(|s| s.id() as usize).collect();
+                let bad = |rng: &mut Rng| -> usize { loop { let c = match rng.below(4) { 0 => 256 + rng.below(300), 1 => rng.below(256), 2 => ids.iter().max().map(|m| m + 1).unwrap_or(1), _ => 65536 + ids.first().cloned().unwrap_or(0) }; if !ids.contains(&c) { return c; } } };
+                let (c, h, s) = match rng.below(3) { 0 => (cyl, head, bad(rng)), 1 => (200 + rng.below(100), head, ids.first().cloned().unwrap_or(1)), _ => (cyl, 2 + rng.below(14), ids.first().cloned().unwrap_or(1)) };
+                let write = rng.chance(50);
+                let dat = write_data(rng, 256);
+                desc += &format!("{}!{}/{}/{} ", if write { "W" } else { "R" }, c, h, s);
+                q.ops.push(if write { format!("ws:{}:{}:{}:{}", c, h, s, hx(&dat)) } else { format!("rs:{}:{}:{}", c, h, s) });
+                let res = guarded(|| if write { img.write_sector(c, h, s, &dat).map(|_| vec![]).map_err(|e| e.to_string()) } else { img.read_sector(c, h, s).map_err(|e| e.to_string()) });
+                match res {
+                    Ok(Ok(v)) => { q.ans.push(if write { "ok".into() } else { format!("ok:{}", hx(&v)) }); q.fail("invalid-refused", format!("{}/invalid-accepted", sigp), format!("c{} h{} id {} does not exist but was {}", c, h, s, if write { "written" } else { "read" })); if write { q.stop = true; } }
+                    Ok(Err(_)) => q.ans.push("err".into()),
+                    Err(p) => { q.ans.push("panic".into()); q.stop = true; q.fail("invalid-refused", format!("{}/invalid-panic:{}", sigp, src_file(&p)), format!("c{} h{} id {} panic={}", c, h, s, p)); }
+                }
+            } else if r < 88 || (with_meta && r < 92) {
+                td_save(&mut img, &mut d, &mut q, &sigp, &mut desc, false);
+            } else if with_meta && r < 98 {
+                let v = note_texts(rng, false);
+                let key = vec!["td0".to_string(), "comment".to_string(), "notes".to_string()];
+                let res = guarded(|| img.put_metadata(&key, &json::JsonValue::String(v.clone())).map_err(|e| e.to_string()));
+                let meta = img.get_metadata(None);
+                // the time stamp of a comment block made now is whatever the clock says: taken from what the object shows
+                let stamp = leaf(&meta, &["td0", "comment", "timestamp", "_raw"]).and_then(|s| hex::decode(s).ok()).unwrap_or(vec![0; 6]);
+                desc += &format!("NT{:?} ", v);
+                q.ops.push(format!("nt:{}:{}", hx(&stamp), hx(v.as_bytes())));
+                match res {
+                    Ok(Ok(())) => {
+                        q.ans.push("ok".into());
+                        if v.contains('\u{0}') { q.fail("metadata-put", format!("{}/notes-with-nul-accepted", sigp), format!("{:?}", v)); }
+                        let text = td_notes_file(&normalize(&v));
+                        d.comment = Some(match d.comment.take() { Some((st, _)) => (st, text), None => (stamp.clone(), text) });
+                    }
+                    Ok(Err(_)) => { q.ans.push("refused".into()); if !v.contains('\u{0}') { q.fail("metadata-put", format!("{}/notes-refused", sigp), format!("{:?}", v)); } }
+                    Err(p) => { q.ans.push("panic".into()); q.stop = true; q.fail("no-panic", format!("{}/put_metadata-panic:{}", sigp, src_file(&p)), p); }
+                }
+                if !q.stop {
+                    q.ops.push("mg".into());
+                    let got = leaf(&img.get_metadata(None), &["td0", "comment", "notes"]);
+                    q.ans.push(match &got { Some(s) => format!("mg:{}", hx(s.as_bytes())), None => "mg:none".into() });
+                    let want = d.comment.as_ref().map(|c| td_notes_mem(&c.1));
+                    if got != want { q.fail("metadata-put-then-get", format!("{}/notes-put-get-differs", sigp), format!("want {:?} got {:?}", want, got)); }
+                }
+            } else {
+                td_save(&mut img, &mut d, &mut q, &sigp, &mut desc, true);
+                if !q.stop && with_meta {
+                    q.ops.push("mg".into());
+                    let got = leaf(&img.get_metadata(None), &["td0", "comment", "notes"]);
+                    q.ans.push(match &got { Some(s) => format!("mg:{}", hx(s.as_bytes())), None => "mg:none".into() });
+                    let want = d.comment.as_ref().map(|c| td_notes_mem(&c.1));
+                    if got != want { q.fail("metadata-after-reload", format!("{}/notes-differ-after-reload", sigp), format!("want {:?} got {:?}", want, got)); }
+                }
+            }
+        }
+        if wrote_flagged_uniform { ctx.out.count("mixed:td0:uniform-write-to-no-data-sector"); }
+        let nontrivial = wrote && read_after && d.tracks.iter().any(|t| t.secs.iter().any(|s| s.rec.get(2).map(|e| *e != 0).unwrap_or(true)));
+        finish_seq(ctx, fam, "td0seq", &file, q, &desc, nontrivial, "td0");
     }
 }
